@@ -220,6 +220,11 @@ def run(ctx):
         corpus.append(neoxsim.NCfg(rng, pp=1, dp=2, mp=mp, blocks=1, fus=1, ius=ius, prediv=False, accum=1,
                                    damping=[Fraction(1, 4), Fraction(1, 16), Fraction(1, 2), Fraction(1, 8)],
                                    ops=['f1', 's'] * 4, cap_mb=0.0))
+    # micro-batches of different sizes inside an accumulation window (model-parallel degree 1: the gathers are no collectives,
+    # so the script does not depend on the row counts)
+    for accum, dp in ((2, 2), (3, 1), (2, 1)):
+        corpus.append(neoxsim.NCfg(rng, pp=1, dp=dp, mp=1, blocks=1, fus=1, ius=1, accum=accum, ragged=True, hook=rng.random() < 0.5,
+                                   ops=['f1', 's'] * 3, cap_mb=0.0))
     n = ctx.budget(40, 400)
     for i in range(n):
         cfg = corpus[i] if i < len(corpus) else gen(ctx, rng)
